@@ -125,6 +125,13 @@ def model_validation(seed, verbose=False):
     results.append(differential('int(str)', models.m_int, int, [(s,) for s in strs]))
     results.append(differential('int(str,16)', lambda s: models.m_int(s, 16), lambda s: int(s, 16), [(s,) for s in strs + ['ff', 'FF', '1g', '7f', 'FFFFFFFFFF']]))
     results.append(differential('float(str)', lambda s: models.m_float(s), float, [(s,) for s in strs]))
+    expforms = ['1e2', '5E0', '9e9', '1.5e-3', '0.0E-9', '7.25e+2', ' 3e1 ', '-4e-2', '+2.5E3', '1e', 'e5', '1e+', '1.e2', '.5e1', '1e2.0',
+                '12345.678e-4', '0e0', '9.9E-9', '1ee2', '1e-22', '123456789012e3']
+    results.append(differential('float(exponent text)', lambda s: models.m_float(s), float, [(s,) for s in expforms]))
+    fmts = [('%s', 12), ('%d', -7), ('a%db', 10 ** 17), ('%.15g', 123456789012345), ('%.15g', -999999999999999), ('%.15g', 0),
+            ('%.3g', 999), ('%.3g', -12), ('%i%%', 5), ('%s-%s', 3), ('%d', 'x'), ('%.6g', 123456)]
+    for f, x in fmts:
+        results.append(differential('str %% int (%s)' % f, (lambda f: lambda x: models.sym_strmod(f, x))(f), (lambda f: lambda x: f % x)(f), [(x,)]))
     results.append(differential('chr', models.m_chr, chr, [(a,) for a in [0, 65, 0x10FFFF, 0x110000, -1, 31, 32, 127]]))
     results.append(differential('ord', models.m_ord, ord, [(s,) for s in ['a', '中', '', 'ab']]))
     results.append(differential('bool&1', lambda a: a & 1, lambda a: a & 1, [(a,) for a in ints]))
